@@ -1,0 +1,90 @@
+//go:build verif
+// +build verif
+
+// Verification-only export (build tag "verif").  No logic here: a setter for
+// the package variable that fixes how many signature-checking goroutines
+// exeWithCPUParallelVeirfy starts.
+
+package evm
+
+import (
+	etypes "github.com/dappledger/AnnChain/eth/core/types"
+	"github.com/dappledger/AnnChain/gemmill/types"
+)
+
+// SetVerifValidateRoutineCount sets validateRoutineCount and returns the
+// previous value.  Process-global: call it only while no block is executing.
+func SetVerifValidateRoutineCount(n int) int {
+	old := validateRoutineCount
+	validateRoutineCount = n
+	return old
+}
+
+// ---- read-only view of the transaction pool (added for the C19 check) ----
+// Pure accessors: nothing below writes to the pool (Flatten, which fills the
+// sort cache, is deliberately not used).
+
+// VerifPoolEntry is one transaction held in the pending or waiting queue.
+type VerifPoolEntry struct {
+	Addr  [20]byte
+	Nonce uint64 // key in txSortedMap.items
+	Hash  [32]byte
+}
+
+// VerifPoolSnapshot is a copy of the pool's queues, lookup map and limits.
+type VerifPoolSnapshot struct {
+	Pending      []VerifPoolEntry
+	Waiting      []VerifPoolEntry
+	PendingIndex map[[20]byte][]uint64 // copy of each pending txSortedMap.index (heap order)
+	WaitingIndex map[[20]byte][]uint64
+	All          map[[32]byte][]byte // copy of ethTxPool.all
+	Ext          [][]byte            // extTxs front to back
+	PendingLimit int
+	WaitingLimit int
+}
+
+// VerifPoolSnapshot returns a copy of the pool's internal sets.
+func (app *EVMApp) VerifPoolSnapshot() VerifPoolSnapshot {
+	tp := app.pool
+	tp.Lock()
+	defer tp.Unlock()
+	s := VerifPoolSnapshot{
+		PendingIndex: map[[20]byte][]uint64{},
+		WaitingIndex: map[[20]byte][]uint64{},
+		All:          map[[32]byte][]byte{},
+		PendingLimit: tp.pendingLimit,
+		WaitingLimit: tp.waitingLimit,
+	}
+	for addr, m := range tp.pending {
+		for n, tx := range m.items {
+			s.Pending = append(s.Pending, VerifPoolEntry{Addr: addr, Nonce: n, Hash: tx.Hash()})
+		}
+		s.PendingIndex[addr] = append([]uint64(nil), (*m.index)...)
+	}
+	for addr, m := range tp.waiting {
+		for n, tx := range m.items {
+			s.Waiting = append(s.Waiting, VerifPoolEntry{Addr: addr, Nonce: n, Hash: tx.Hash()})
+		}
+		s.WaitingIndex[addr] = append([]uint64(nil), (*m.index)...)
+	}
+	for h, raw := range tp.all {
+		s.All[h] = append([]byte(nil), raw...)
+	}
+	for e := tp.extTxs.Front(); e != nil; e = e.Next() {
+		s.Ext = append(s.Ext, append([]byte(nil), []byte(e.Value.(types.Tx))...))
+	}
+	return s
+}
+
+// ---- the two signature-checking drivers (added for the SCHED part of C05) ----
+// Pure wrappers: a harness outside the package supplies the callbacks.
+
+// VerifExeParallel calls exeWithCPUParallelVeirfy.
+func VerifExeParallel(signer etypes.Signer, txs types.Txs, quit chan struct{}, begin BeginExecFunc) error {
+	return exeWithCPUParallelVeirfy(signer, txs, quit, begin)
+}
+
+// VerifExeSerial calls exeWithCPUSerialVeirfy.
+func VerifExeSerial(txs types.Txs, begin BeginExecFunc) {
+	exeWithCPUSerialVeirfy(txs, begin)
+}
